@@ -344,7 +344,7 @@ def run(rep):
     rng = random.Random(rep.seed * 32452843 % (2 ** 31) + rep.shard)
     rep.distinct_winners = set()
     quick = rep.tier == 'quick'
-    n = 28 if quick else 1500
+    n = 20 if quick else 1500
     kinds = ['order', 'order', 'faults', 'faults', 'allfail', 'dup',
              'mixed', 'mixed', 'shortcut']
     j = 0
